@@ -1,6 +1,6 @@
 (** C16 — children live exactly as long as their parent and receive its broadcasts.
     Statements only; proofs live in Inv/. *)
-From Hannibal Require Import Model.Sys Inv.C16.
+From Hannibal Require Import Model.Sys Inv.C16 Inv.C16b Chk.C16.
 
 (** A child is registered by handing the parent a strong Sender: the handle stays in the table
     (it was counted as a strong reference when it was created) and is appended to the parent's
@@ -41,3 +41,24 @@ Theorem C16_broadcast_targets :
     /\ actors s' a = Some x' /\ a_bcur x' = S (a_bcur x) /\ a_children x' = a_children x.
 Proof. exact bcast_target. Qed.
 Print Assumptions C16_broadcast_targets.
+
+(** Completeness of a broadcast, on every execution the model accepts (simulation to the machine
+    of Chk/C16.v): when [send_to_children] returns it has made exactly one submission per child
+    registered under the message type - none left out, none extra - however many children were
+    added, under whatever types, and whether or not some of them have terminated. *)
+Theorem C16_broadcast_is_complete : forall tr, accepts tr = true -> chk_C16 tr = true.
+Proof. exact accepts_chk_C16. Qed.
+Print Assumptions C16_broadcast_is_complete.
+
+Example C16_acceptor_rejects :
+  let c := {| sc_bound := None; sc_timeout := None; sc_failto := false; sc_strat := RestartOnly;
+              sc_stream := false; sc_entry := 2; sc_ty := 0 |} in
+  (* two children under type 1, one under type 2: a broadcast of type 1 makes two submissions *)
+  chk_C16 [EvSpawn 0 c; EvChildAdd 0 1 10; EvChildAdd 0 2 11; EvChildAdd 0 1 12;
+           EvBcastBegin 0 1; EvBcast 0 1 5; EvBcast 0 1 6; EvBcastEnd 0 1] = true
+  (* one child skipped *)
+  /\ chk_C16 [EvSpawn 0 c; EvChildAdd 0 1 10; EvChildAdd 0 2 11; EvChildAdd 0 1 12;
+           EvBcastBegin 0 1; EvBcast 0 1 5; EvBcastEnd 0 1] = false
+  (* one submission too many *)
+  /\ chk_C16 [EvSpawn 0 c; EvChildAdd 0 1 10; EvBcastBegin 0 1; EvBcast 0 1 5; EvBcast 0 1 6; EvBcastEnd 0 1] = false.
+Proof. vm_compute. repeat split. Qed.
